@@ -203,6 +203,21 @@ theorem write_validated_counterexample :
   | some S' => compiles S' "b" && compiles S' "d" && !compiles S' "c"
   | none => false)
 
+/-- second manifestation of the same defect (signature `…indirect-referrer:no-subset`): router b → c/v1,
+    resolver c fails subset v1 over to a/v2; deleting resolver a (which defined v2) re-checks chains a
+    and c only — c is compiled for its unnamed subset, where the v1 failover is never evaluated — and is
+    accepted; chain b then names a missing subset. -/
+def subsetWitness : Entries :=
+  { routers := [("b", [⟨"/x", { svc := "c", subset := "v1" }⟩])]
+    resolvers := [("a", { subsets := [("v2", 0)] }),
+                  ("c", { subsets := [("v1", 0)], failover := [("v1", { svc := "a", subset := "v2" })] })]
+    proxy := some { proto := "http" } }
+
+#guard compiles subsetWitness "a" && compiles subsetWitness "b" && compiles subsetWitness "c"
+#guard (match deleteEntry subsetWitness .resolver "a" with
+  | some S' => compiles S' "a" && compiles S' "c" && !compiles S' "b"
+  | none => false)
+
 /-- `write_validated_partial`: the full statement holds under the explicit hypothesis that every chain
     whose inputs the write changes is within the re-checked set (own chain + direct referrers). -/
 theorem write_validated_partial (S S' : Entries) (e : Entry) (h : ensureEntry S e = some S')
